@@ -26,7 +26,7 @@ ASSUMPTIONS = [
     "curved segments with Fraction control points are split but not compared with == (exact Newton iterations, see F16)",
 ]
 DECIDING_MONITORS = ("split:judged", "clean:judged")
-CASE_TIMEOUT = 120
+CASE_TIMEOUT = 400
 SHARD_SIZE = 15
 
 
@@ -157,6 +157,10 @@ def internal_case(ctx):
 def case(ctx):
     import shapepy
 
+    if ctx.tier == "thorough" and ctx.index == 0:
+        from vf.checks.common import suite_case
+
+        return suite_case(ctx, ID)
     rng = ctx.rng
     if ctx.index % 5 == 4:
         return internal_case(ctx)
